@@ -79,6 +79,26 @@ fn gen_date(ch: &mut Choices, base: i32, stored: &BTreeSet<NaiveDate>) -> NaiveD
         .expect("valid date")
 }
 
+/// A reader handing out its bytes in chunks of `chunk` at most, and in chunks ending at multiples
+/// of `block` (like a buffered reader refilling): `Read::read` may legitimately return fewer bytes
+/// than asked for.
+struct Dribble<'a> {
+    data: &'a [u8],
+    pos: usize,
+    chunk: usize,
+    block: usize,
+}
+
+impl std::io::Read for Dribble<'_> {
+    fn read(&mut self, buf: &mut [u8]) -> std::io::Result<usize> {
+        let to_block_end = self.block - self.pos % self.block;
+        let n = buf.len().min(self.chunk).min(to_block_end).min(self.data.len() - self.pos);
+        buf[..n].copy_from_slice(&self.data[self.pos..self.pos + n]);
+        self.pos += n;
+        Ok(n)
+    }
+}
+
 fn first_after_model(set: &BTreeSet<NaiveDate>, q: NaiveDate) -> Option<NaiveDate> {
     set.range((Bound::Excluded(q), Bound::Unbounded)).next().copied()
 }
@@ -234,6 +254,15 @@ fn history_with(ch: &mut Choices, case: &mut Case, base: i32, max_ops: u32) -> R
                     offsets.push(buf.len());
                 }
                 let total = buf.len();
+                // the same stream through a reader that returns short reads
+                let (chunk, block) = (ch.pick(&[usize::MAX, 1, 3, 7, 11, 13, 64]), ch.pick(&[usize::MAX, 8192, 16, 20, 100, 12, 4]));
+                let mut dribble = Dribble { data: &buf, pos: 0, chunk, block };
+                for (i, c) in cals.iter().enumerate() {
+                    let back = CompactCalendar::deserialize(&mut dribble).map_err(|e| format!("deserialize #{i} of a stream failed through a reader returning at most {chunk} bytes per call, blocks of {block}: {e}; history: {hist}stream({k})"))?;
+                    if back != *c || dribble.pos != offsets[i] {
+                        return Err(format!("calendar #{i} read back from a stream of {k} through a reader returning at most {chunk} bytes per call (blocks of {block}) differs, or {} bytes were consumed instead of {}; history: {hist}stream({k})", dribble.pos, offsets[i]));
+                    }
+                }
                 let mut rd = buf.as_slice();
                 hist.push_str(&format!("stream({k}); "));
                 for (i, c) in cals.iter().enumerate() {
@@ -431,7 +460,7 @@ pub fn property() -> Property {
         subs: vec![
             SubCheck {
                 name: "history",
-                rule: "model-based histories of up to 60 operations (insert / contains / first_after / iter+count / equality with a calendar rebuilt from a permutation and with a strict subset / serialize+deserialize / concatenated streams of 1-4 calendars with byte accounting) against BTreeSet<NaiveDate>; dates: clustered years, +-3000 years apart, negative years, day 31, Dec 31 / Jan 1, neighbours of stored dates, queries outside the stored span; non-trivial = at least two stored years and (a first_after answer in another year than the query, or a stream)",
+                rule: "model-based histories of up to 60 operations (insert / contains / first_after / iter+count / equality with a calendar rebuilt from a permutation and with a strict subset / serialize+deserialize / concatenated streams of 1-4 calendars with byte accounting, read from a slice and through a reader returning short reads: at most 1..64 bytes per call, chunks ending at block limits) against BTreeSet<NaiveDate>; dates: clustered years, +-3000 years apart, negative years, day 31, Dec 31 / Jan 1, neighbours of stored dates, queries outside the stored span; non-trivial = at least two stored years and (a first_after answer in another year than the query, or a stream)",
                 f: history,
                 text_f: None,
                 cases_quick: 40_000,
